@@ -2154,8 +2154,12 @@ static int64_t eval3(Node *node, char ***label) {
   case ND_CAST: {
     if (node->ty->kind == TY_BOOL && is_flonum(node->lhs->ty))
       return eval_double(node->lhs) != 0;
-    if (node->ty->kind == TY_LONG && node->ty->is_unsigned && is_flonum(node->lhs->ty))
-      return (uint64_t)eval_double(node->lhs);
+    if (node->ty->kind == TY_LONG && node->ty->is_unsigned && is_flonum(node->lhs->ty)) {
+      // A NaN has no integer value; give it one here rather than leave
+      // the choice to the compiler that builds this file.
+      long double val = eval_double(node->lhs);
+      return (val != val) ? 0 : (uint64_t)val;
+    }
     int64_t val = eval2(node->lhs, label);
     if (node->ty->kind == TY_BOOL) {
       // The address of an object or function is never null.
